@@ -1,6 +1,7 @@
 import Driver.C14
 import Driver.C16
 import Driver.C17
+import Driver.C18
 /-
 siot-model: line-protocol driver. Reads "<PROP> <case...> => <impl observation>" lines on stdin,
 replays each case on the Lean model and prints
@@ -16,6 +17,7 @@ def dispatch (prop : String) (args : List String) (impl : String) : Verdict :=
   | "C14" => C14.handle args impl
   | "C16" => C16.handle args impl
   | "C17" => C17.handle args impl
+  | "C18" => C18.handle args impl
   | _ => bad ("unknown property " ++ prop)
 
 def processLine (line : String) : String :=
